@@ -12,7 +12,7 @@ LEAN_MODULES = ["Properties.C10", "Properties.Core", "Properties.Prov.Hints", "P
 RULE = (
     "exhaustive None / conforming / violating patterns over signatures with optional hints in parameter, tuple-element (every position), "
     "field and return position (<=3 positions), spelled `T | None`, Optional[T], `None | T`, Optional[Optional[T]]; unions with other "
-    "alternatives (`T | int`, `T | int | None`) and unsupported base types for the decoration-time TypeError; presented as CTX, as function "
+    "alternatives in either order (`T | int`, `T | int | None`, `Union[int, T]`, `Union[None, float, T]`), Optional[tuple[...]] (its elements stay as optional as they are written) and unsupported base types for the decoration-time TypeError; presented as CTX, as function "
     "calls and as NamedTuple / dataclass constructions. non-trivial = distinct line with at least one optional position"
 )
 
@@ -40,7 +40,16 @@ def cases(tier, rng, run):
                     out.append(Case(f"CALL\tnt:kw\t-\t\tP|x|S|{specs[0]}|{vs[0]}\tP|t|T|{specs[1]};{specs[2]}|U:{vs[1]};{vs[2]}", "exh-nt"))
                     out.append(Case(f"CALL\tdc:pos\t-\t\tP|x|S|{specs[0]}|{vs[0]}\tP|t|T|{specs[1]};{specs[2]}|U:{vs[1]};{vs[2]}", "exh-dc"))
     # general unions / unsupported base
-    for k in ["2", "3", "6"]:
+    # Optional[tuple[...]]: the elements are no more optional than under tuple[...] — None in an element position is refused,
+    # every other element is checked as before
+    for opts in itertools.product([0, 1], repeat=2):
+        for pattern in itertools.product(vals, repeat=2):
+            specs = [f"FloatTensor,{'1' if o else '0'},{SHAPES[i][0]}" for i, o in enumerate(opts)]
+            vs = ["N" if p == "N" else f"T,0:float32,{'.'.join(map(str, SHAPES[i][1] if p == 'ok' else SHAPES[i][2]))}" for i, p in enumerate(pattern)]
+            for kind in ("func:pos", "func:kw", "nt:pos", "dc:pos"):
+                out.append(Case(f"CALL\t{kind}\t-\t\tP|t|TO|{specs[0]};{specs[1]}|U:{vs[0]};{vs[1]}", "opt-tuple"))
+            out.append(Case(f"CALL\tfunc:pos\t-\t\tP|x|S|FloatTensor,0,a|T,0:float32,2\tR|TO|{specs[0]};{specs[1]}|U:{vs[0]};{vs[1]}", "opt-tuple"))
+    for k in ["2", "3", "6", "8", "9"]:
         for v in ["N", "T,0:float32,2.3"]:
             out.append(Case(f"CALL\tfunc:pos\t-\t\tP|x|S|FloatTensor,{k},a b|{v}", "union"))
             out.append(Case(f"CALL\tfunc:pos\t-\t\tP|y|S|FloatTensor,0,a b|T,0:float32,2.3\tP|t|T|FloatTensor,{k},a;-|U:{v};X", "union"))
